@@ -636,3 +636,95 @@ Proof.
   destruct (list_eq_dec N.eq_dec n1 n2) as [-> | Hn]; [|right; congruence].
   destruct v1, v2; try (right; congruence); destruct c1, c2; try (right; congruence); left; reflexivity.
 Qed.
+
+(* ---------------- dispatch without an explicit version (detect_spec_version) ---------------- *)
+
+Lemma lookup_registered_after : forall vt r q r' ops,
+  decorate vt r q = (r', Done) ->
+  lookup (state_after vt r' ops) (r_ver q) (r_kind q) (r_name q) = Some (r_cls q).
+Proof.
+  intros vt r q r' ops D. apply history_grows. apply reg_exact_lemma in D. apply D.
+Qed.
+
+Lemma not_bundle : forall n, n <> s_bundle -> ustr_eqb n s_bundle = false.
+Proof. intros. apply ustr_eqb_neq. assumption. Qed.
+
+(* a 2.1 custom object: the data carries spec_version "2.1" and no version is forced *)
+Lemma parse_default_object_21 : forall vt r q r' ops has_id ac exts,
+  decorate vt r q = (r', Done) -> r_kind q = Objects -> r_ver q = V21 -> r_name q <> s_bundle ->
+  parse_dispatch (state_after vt r' ops) (r_name q) (Some s_v21) has_id None ac exts = DClass (r_cls q).
+Proof.
+  intros vt r q r' ops has_id ac exts D K V NB.
+  pose proof (lookup_registered_after vt r q r' ops D) as L. rewrite K, V in L.
+  unfold parse_dispatch, effective_version, detect_spec_version. rewrite (not_bundle _ NB).
+  change s_v21 with (version_text V21). rewrite cft_objects, L. reflexivity.
+Qed.
+
+(* a 2.0 custom object: no spec_version in the data; detection says 2.0 unless the same name is a 2.1 observable *)
+Lemma parse_default_object_20 : forall vt r q r' ops has_id ac exts,
+  decorate vt r q = (r', Done) -> r_kind q = Objects -> r_ver q = V20 -> r_name q <> s_bundle ->
+  (has_id = false \/ lookup (state_after vt r' ops) V21 Observables (r_name q) = None) ->
+  parse_dispatch (state_after vt r' ops) (r_name q) None has_id None ac exts = DClass (r_cls q).
+Proof.
+  intros vt r q r' ops has_id ac exts D K V NB H.
+  pose proof (lookup_registered_after vt r q r' ops D) as L. rewrite K, V in L.
+  unfold parse_dispatch, effective_version, detect_spec_version.
+  assert (E : (if negb has_id then Some s_v20
+               else if ustr_eqb (r_name q) s_bundle then None
+                    else match lookup (state_after vt r' ops) V21 Observables (r_name q) with
+                         | Some _ => Some s_v21 | None => Some s_v20 end) = Some s_v20).
+  { destruct H as [-> | H]; [reflexivity|]. destruct has_id; simpl; auto. rewrite (not_bundle _ NB), H. reflexivity. }
+  rewrite E. change s_v20 with (version_text V20). rewrite cft_objects, L. reflexivity.
+Qed.
+
+(* a 2.1 custom observable: with an id and no spec_version the detection itself consults the 2.1
+   observables registry -- and finds the registration *)
+Lemma parse_default_observable_21 : forall vt r q r' ops specv ac,
+  decorate vt r q = (r', Done) -> r_kind q = Observables -> r_ver q = V21 -> r_name q <> s_bundle ->
+  (specv = None \/ specv = Some s_v21) ->
+  parse_observable_dispatch (state_after vt r' ops) (r_name q) specv true None ac = DClass (r_cls q).
+Proof.
+  intros vt r q r' ops specv ac D K V NB H.
+  pose proof (lookup_registered_after vt r q r' ops D) as L. rewrite K, V in L.
+  unfold parse_observable_dispatch, effective_version, detect_spec_version. rewrite (not_bundle _ NB).
+  destruct H as [-> | ->]; simpl; rewrite ?L; change s_v21 with (version_text V21); rewrite cft_observables, L; reflexivity.
+Qed.
+
+(* a 2.0 custom observable: no id, no spec_version *)
+Lemma parse_default_observable_20 : forall vt r q r' ops ac,
+  decorate vt r q = (r', Done) -> r_kind q = Observables -> r_ver q = V20 ->
+  parse_observable_dispatch (state_after vt r' ops) (r_name q) None false None ac = DClass (r_cls q).
+Proof.
+  intros vt r q r' ops ac D K V.
+  pose proof (lookup_registered_after vt r q r' ops D) as L. rewrite K, V in L.
+  unfold parse_observable_dispatch, effective_version, detect_spec_version. simpl.
+  change s_v20 with (version_text V20). rewrite cft_observables, L. reflexivity.
+Qed.
+
+(* markings and extensions: what MarkingDefinition.__init__ / ExtensionsProperty.clean dispatch to *)
+Lemma marking_dispatch_registered_lemma : forall vt r q r' ops,
+  decorate vt r q = (r', Done) -> r_kind q = Markings ->
+  marking_dispatch (state_after vt r' ops) (r_ver q) (r_name q) = DClass (r_cls q).
+Proof.
+  intros vt r q r' ops D K. pose proof (lookup_registered_after vt r q r' ops D) as L. rewrite K in L.
+  unfold marking_dispatch. rewrite L. reflexivity.
+Qed.
+
+Lemma extension_dispatch_registered_lemma : forall vt r q r' ops ac ok,
+  decorate vt r q = (r', Done) -> r_kind q = Extensions ->
+  extension_dispatch (state_after vt r' ops) (r_ver q) (r_name q) ac ok = DClass (r_cls q).
+Proof.
+  intros vt r q r' ops ac ok D K. pose proof (lookup_registered_after vt r q r' ops D) as L. rewrite K in L.
+  unfold extension_dispatch. rewrite L. reflexivity.
+Qed.
+
+(* an unregistered marking / extension name is dispatched to no class *)
+Lemma marking_dispatch_unregistered_lemma : forall r V n, lookup r V Markings n = None -> marking_dispatch r V n = DExc EValue.
+Proof. intros. unfold marking_dispatch. rewrite H. reflexivity. Qed.
+
+Lemma extension_dispatch_unregistered_lemma : forall r V n ac ok, lookup r V Extensions n = None ->
+  forall c, extension_dispatch r V n ac ok <> DClass c.
+Proof.
+  intros r V n ac ok H c. unfold extension_dispatch. rewrite H.
+  destruct (ustr_prefix s_extdef n), ok, ac; discriminate.
+Qed.
